@@ -163,7 +163,11 @@ class KernelOracle:
                     raise core.Undecided("rw draw shape")
                 kappa = float((xs - x) @ xi / (xi @ xi))
                 if not close(xs, x + kappa * xi, 1e-9):
-                    raise core.Undecided("proposal does not fit x + kappa*xi")
+                    # a user-supplied zero-mean Gaussian proposal N(0, C): the increment is kappa*L*xi with L L' = C
+                    Cinv = self.refs.get("proposal_Cinv")
+                    sc_ = float(np.ravel(self.get_scale())[0]) if Cinv is not None else None
+                    if Cinv is None or not sc_ or not close(((xs - x) / sc_) @ Cinv @ ((xs - x) / sc_), xi @ xi, 1e-7):
+                        raise core.Undecided("proposal does not fit x + kappa*xi")
             if fk is not None or not np.isfinite(lxs):
                 if fk is None:
                     self.ctx.hit("proposal_outside_support")
@@ -364,6 +368,8 @@ def gen_case(r, tier):
         sc = zoo.gen_legacy_scenario(r, kind)
         method = r.choice(["sample", "sample", "sample_adapt"]) if kind != "MALA" else "sample"
         N = r.randint(10, 40) if method == "sample_adapt" else r.randint(3, 40)
+        if method == "sample_adapt" and kind in ("MH", "pCN") and r.random() < 0.3:
+            sc["knobs"]["scale"] = None          # sample_adapt then starts from its default scale 0.1
         ops = [{"op": method, "N": N, "Nb": r.choice([0, 0, 3])}]
         if r.random() < 0.3:
             ops.append({"op": "set_scale", "factor": r.choice([0.3, 0.5, 2.0])})
@@ -384,7 +390,7 @@ class MHRun:
     def _refs(self, info):
         refs = {"ref_logd": info.get("ref_logd"), "ref_grad": info.get("ref_grad"),
                 "ref_loglik": info.get("ref_loglik"), "p_logd": info.get("logd"),
-                "p_forward": info.get("forward"), "p_grad": info.get("grad")}
+                "p_forward": info.get("forward"), "p_grad": info.get("grad"), "proposal_Cinv": info.get("proposal_Cinv")}
         if FAMILY[self.kind] == "pcn":
             m, C, Cinv = _prior_moments(self.sc["target"])
             refs.update(prior_mean=m, prior_C=C, prior_Cinv=Cinv)
